@@ -303,4 +303,9 @@ for _p, _lanes in (("C01", ["MIRI-column", "MIRI-db"]), ("C07", ["MIRI-column", 
     META[_p]["miri"] = _lanes
     MANIFEST_TEXT[_p]["technique"] += "; thorough tier adds a Miri (undefined-behaviour / data-race interpreter) run of tiny versions of the workload (self-tested, report = violation)"
 
+# ThreadSanitizer lane (thorough tier): the quick-tier concurrency workloads on a -Zsanitizer=thread build (instrumented std).
+for _p in ("C10", "C11"):
+    META[_p]["tsan"] = True
+    MANIFEST_TEXT[_p]["technique"] += "; thorough tier adds a ThreadSanitizer build of the same workload (self-tested, data-race report = violation)"
+
 META["C17"]["floors"]["quick"].setdefault("sets", {})["full_precision_column_kinds"] = ["dense_float", "nullable_float"]
